@@ -276,7 +276,7 @@ func migrateScenario(name, text string, dc map[int]string, second bool) *sess.Sc
 	if second {
 		callers = append(callers, []sess.Call{{Tag: 2, Kind: rpcsrv.KObj}})
 	}
-	sc := &sess.Scenario{Name: name, Salt: 8, Callers: callers}
+	sc := &sess.Scenario{Name: name, Salt: 8, Callers: callers, Opt: rpcsrv.Options{Gzip: true}} // the error may come gzip-packed
 	sc.Setup = func(w *sess.World) {
 		b := rpcsrv.New(sess.TestKey(), 8)
 		b.Clock = w.S.Clock
@@ -354,7 +354,7 @@ func scenarios() []*sess.Scenario {
 		chainScenario("H-flood-5-then-flood-30", []sess.Call{obj(1), obj(2)},
 			map[string]map[int32]string{sess.Addr: {1: "FLOOD_WAIT_5", 2: "FLOOD_WAIT_30"}},
 			chainExpect{dials: []string{sess.Addr}, ops: []opx{{"FLOOD_WAIT_X|5", 400}, {"FLOOD_WAIT_X|30", 400}}}),
-		{Name: "B-rpc-error-among-callers", Salt: 8, Opt: rpcsrv.Options{Reorder: true, Container: true},
+		{Name: "B-rpc-error-among-callers", Salt: 8, Opt: rpcsrv.Options{Reorder: true, Container: true, Gzip: true},
 			Callers: [][]sess.Call{{{Tag: 1, Kind: rpcsrv.KObj}}, {{Tag: 2, Kind: rpcsrv.KErr}}, {{Tag: 3, Kind: rpcsrv.KBool}}}},
 		migrateScenario("M-configured", "PHONE_MIGRATE_2", cfg, false),
 		migrateScenario("M-configured-second-caller", "PHONE_MIGRATE_2", cfg, true),
